@@ -11,12 +11,28 @@
                                  statement is proved in Lemmas/ConformsStab.lean: `conforms_stabilises` (the chain is
                                  constant on the universe of a case from level |pairs| on), `Conforms_iff_conf_card`,
                                  and `gfp_iff_Conforms` (the judge's executable oracle decides `Conforms` exactly)
-    machine_eq_conforms_partial  the machine's verdict (code as it is, `Fix.tree`) equals the declarative one on the
-                                 LEAF fragment: EVERY object (references: chains, undefined, cyclic; compound objects)
-                                 against `any`/primitive checks with ANY predicate and ANY indirection requirement,
-                                 over every graph.  NOT proved: array/dictionary/stream/disjunction/named nodes
-                                 (there the link is the correspondence run + bounded-exhaustive search; with
-                                 disjunctions the machine is known to differ from the specification: memo leak).
+    machine_eq_conforms_F1       FULL on FRAGMENT F1 (`Frag.inF1 ctx c`, decidable, Spec/TypeCheckFrag.lean: among the checks
+                                 reachable from `c` no disjunction, no dangling name, no Any-typed array element /
+                                 dictionary / stream / wildcard entry with an indirect requirement but no predicate):
+                                 for EVERY graph (reference chains, undefined references, cycles) and EVERY object the
+                                 machine (code as it is, `Fix.tree`; more generally every configuration `Sound.FixOK`) run
+                                 with the proved work bound accepts IFF the object conforms.  Covers arrays (sized or not),
+                                 heterogeneous arrays, dictionaries (required / optional / forbidden keys, wildcard entry),
+                                 streams, named and RECURSIVE types, predicates and indirect requirements on every node.
+                                 Proof: Lemmas/TypeCheckSound.lean (memo ∪ pending is closed under obligations; at accept
+                                 the memo is a post-fixed point of confStep; an error refutes a required pair).
+                                 `machine_eq_conforms_F1_fuel`: the same for ANY fuel with which the run finishes;
+                                 `machine_eq_oracle_F1` (Lemmas/ConformsStab.lean): = the judge's executable oracle `gfp`.
+                                 FALSE for `Fix.orig`: `F1_fails_for_orig_witness`.
+    machine_eq_conforms_leaf     (earlier result, subsumed by F1 up to the fuel) leaf checks with fuel 5, verdict = conf 1
+    machine_eq_conforms_partial  = machine_eq_conforms_F1, the widest fragment proved.  NOT proved: specifications with a
+                                 reachable disjunction.  There the statement is FALSE for the code as it is, even when every
+                                 alternative is a leaf check that fails at its own head before anything is pushed: the failed
+                                 (object, alternative) pair itself stays in the memo and is skipped when it comes up again --
+                                 `shared_alternative_leak_witness` (dict{A : Integer|String, B : Integer} accepts
+                                 << /A (s) /B (s) >>) and `memo_leak_witness`.  A correct fragment F2 needs a PRIVACY condition
+                                 (`Frag.inF2`, stated and tested by the judge, not proved): every alternative of a disjunction
+                                 is a leaf check that occurs nowhere else among the reachable checks.
   Witness theorems (decide on concrete inputs; each is a corpus case replayed on the real check_type):
     memo_leak_witness, any_entry_skips_indirect_witness (known findings still in the tree) and, for the
     ORIGINAL code `Fix.orig`, disjunct_attrs_dropped_witness, named_disjunct_witness, selfref_not_null_witness,
@@ -25,6 +41,8 @@
 -/
 import Parsley.Model.TypeCheck
 import Parsley.Spec.Conforms
+import Parsley.Spec.TypeCheckFrag
+import Parsley.Lemmas.TypeCheckSound
 namespace Parsley.C08
 open Parsley Parsley.TC Parsley.TC.Spec
 
@@ -292,14 +310,14 @@ theorem conf_leaf_const (g : Graph) (ctx : Ctx) (o : Obj) (c : Chk) (hl : isLeaf
     conf g ctx (n + 1) o c = conf g ctx 1 o c := by
   cases c <;> simp [isLeaf] at hl <;> simp [conf, confStep, resolve, shapeOK]
 
-/-- C08 on the leaf fragment, at full strength there: for EVERY graph (reference chains of any length,
+/-- C08 on the leaf fragment (earlier result; subsumed by `machine_eq_conforms_F1`), at full strength there: for EVERY graph (reference chains of any length,
     undefined references, reference cycles), EVERY object -- a reference or not, compound or not -- and
     every leaf check with an arbitrary predicate and indirection requirement, the machine (the code as it
     is, `Fix.tree`) accepts iff the object conforms.
     NOT proved: array / dictionary / stream / disjunction / named nodes (there the link is the
     correspondence run, the bounded-exhaustive oracle search and `gfp_iff_Conforms`; with a disjunction the
     statement is false for the code as it is: `memo_leak_witness`). -/
-theorem machine_eq_conforms_partial (g : Graph) (ctx : Ctx) (o : Obj) (c : Chk) (hl : isLeaf c = true) :
+theorem machine_eq_conforms_leaf (g : Graph) (ctx : Ctx) (o : Obj) (c : Chk) (hl : isLeaf c = true) :
     verdict (checkTypeFuel Fix.tree g ctx 5 o c) = conf g ctx 1 o c ∧
     (verdict (checkTypeFuel Fix.tree g ctx 5 o c) = true ↔ Conforms g ctx o c) := by
   have h1 : verdict (checkTypeFuel Fix.tree g ctx 5 o c) = conf g ctx 1 o c := by
@@ -421,5 +439,101 @@ theorem stale_error_witness :
     let o : Obj := .arr (.cons [] sS (.cons [] sS .nil))
     (checkTypeFuel Fix.orig [] [] 50 o t).1 = .reject .typeMismatch ∧ gfp [] [] o t = true ∧
     (checkTypeFuel Fix.tree [] [] 50 o t).1 = .accept := by decide
+
+/-! ### machine = specification on fragment F1 (no reachable disjunction) -/
+
+/-- C08 on FRAGMENT F1, for every configuration of the repair flags satisfying `Sound.FixOK` and ANY fuel with
+    which the run finishes: accepted iff conforming. -/
+theorem machine_eq_conforms_F1_fuel (fx : Fix) (hfx : Sound.FixOK fx) (g : Graph) (ctx : Ctx) (o : Obj) (c : Chk)
+    (hF : Frag.inF1 ctx c = true) (fuel : Nat) (hfin : (checkTypeFuel fx g ctx fuel o c).1 ≠ .outOfFuel) :
+    verdict (checkTypeFuel fx g ctx fuel o c) = true ↔ Conforms g ctx o c := by
+  obtain ⟨hcl, hmem⟩ := Sound.inF1_closed ctx c hF
+  have h := Sound.checkType_F1 hfx g ctx _ hcl o c hmem fuel
+  simp only [verdict, decide_eq_true_eq]
+  constructor
+  · exact h.1
+  · intro hc
+    apply Decidable.byContradiction
+    intro hne
+    exact h.2 hne hfin hc
+
+/-- C08 on FRAGMENT F1 at full strength: for EVERY graph, context, object and every specification `c` of the
+    fragment (arrays, heterogeneous arrays, dictionaries with required/optional/forbidden keys and a wildcard
+    entry, streams, named recursive types, predicates and indirect requirements anywhere; no disjunction), the
+    machine -- the code as it is, `Fix.tree` -- run with the work bound proved in C09 accepts iff the object
+    conforms to `c` under the declarative reading. -/
+theorem machine_eq_conforms_F1 (g : Graph) (ctx : Ctx) (o : Obj) (c : Chk) (hF : Frag.inF1 ctx c = true) :
+    verdict (checkTypeFuel Fix.tree g ctx (Term.workBound Fix.tree g ctx o c) o c) = true ↔ Conforms g ctx o c :=
+  machine_eq_conforms_F1_fuel Fix.tree Sound.fixOK_tree g ctx o c hF _
+    (Term.checkTypeFuel_terminates Fix.tree rfl g ctx o c)
+
+/-- The widest fragment on which C08's "machine = specification" is proved (= `machine_eq_conforms_F1`).
+    FULL STATEMENT (not provable for the code as it is): the same without `hF`.  Missing: every specification
+    with a reachable disjunction (false there: `memo_leak_witness`, `shared_alternative_leak_witness`), and
+    Any-typed entries with a bare indirect requirement (false there: `any_entry_skips_indirect_witness`). -/
+theorem machine_eq_conforms_partial (g : Graph) (ctx : Ctx) (o : Obj) (c : Chk) (hF : Frag.inF1 ctx c = true) :
+    verdict (checkTypeFuel Fix.tree g ctx (Term.workBound Fix.tree g ctx o c) o c) = true ↔ Conforms g ctx o c :=
+  machine_eq_conforms_F1 g ctx o c hF
+
+-- every leaf check is in F1 (instance; the fragment subsumes the leaf fragment)
+example : Frag.inF1 [] (.prim ⟨some (.choice [.name [0x61]]), .required⟩ .name) = true := by decide
+
+-- non-vacuity 1: a RECURSIVE named type against a CYCLIC graph (1 0 obj << /N 1 0 R /V [1 (s)] >>), inside F1
+def nodeCtx : Ctx :=
+  [("node", .dict Attr.dflt (.cons [0x4e] .optional (.named "node")
+      (.cons [0x56] .required (.het Attr.dflt (alts [I, .prim Attr.dflt .string])) .nil)))]
+def nodeG (v : Obj) : Graph :=
+  [((1, 0), .dict (.cons [0x4e] (.ref 1 0) (.cons [0x56] (.arr (.cons [] (.int 1) (.cons [] v .nil))) .nil)))]
+example : Frag.inF1 nodeCtx (.named "node") = true := by decide
+example : verdict (checkTypeFuel Fix.tree (nodeG sS) nodeCtx
+    (Term.workBound Fix.tree (nodeG sS) nodeCtx (.ref 1 0) (.named "node")) (.ref 1 0) (.named "node")) = true := by
+  decide +kernel
+example : Conforms (nodeG sS) nodeCtx (.ref 1 0) (.named "node") :=
+  (machine_eq_conforms_F1 _ _ _ _ (by decide)).mp (by decide +kernel)
+example : ¬ Conforms (nodeG (.int 2)) nodeCtx (.ref 1 0) (.named "node") := fun h => by
+  have := (machine_eq_conforms_F1 _ _ _ _ (by decide)).mpr h
+  revert this; decide +kernel
+-- non-vacuity 2: inside / outside the fragment
+example : Frag.inF1 [] (.dictStar Attr.dflt (.cons kA .forbidden I .nil) .optional (.array ⟨some .refArray, .required⟩ S' (some 2))) = true := by decide
+example : Frag.inF1 [] alt1 = true := by decide
+example : Frag.inF1 [] (.disj Attr.dflt (alts [alt1, alt2])) = false := by decide   -- a disjunction
+example : Frag.inF1 [] (.dict Attr.dflt (.cons kA .required (.any ⟨none, .required⟩) .nil)) = false := by decide  -- Any entry, bare indirect
+example : Frag.inF1 [] (.het Attr.dflt (alts [.any ⟨none, .required⟩])) = true := by decide  -- no short-cut in a heterogeneous array
+example : Frag.inF1 [] (.dict Attr.dflt (.cons kA .optional (.named "nowhere") .nil)) = false := by decide  -- dangling name
+
+/-- the F1 theorem is FALSE for the code at the pinned commit: a specification of the fragment that `Fix.orig`
+    decides wrongly (#21, the memo ignored predicates) -/
+theorem F1_fails_for_orig_witness :
+    let t : Chk := .dict Attr.dflt (.cons kA .required inA (.cons kB .required inB .nil))
+    let o : Obj := .dict (.cons kA nmA (.cons kB nmA .nil))
+    Frag.inF1 [] t = true ∧ (checkTypeFuel Fix.orig [] [] (Term.workBound Fix.orig [] [] o t) o t).1 = .accept ∧
+    gfp [] [] o t = false := by decide
+
+/-- #25 in its simplest form: every alternative is a LEAF check that fails at its own head node, nothing is
+    ever pushed under an alternative -- and still the failed pair `((s), Integer)` left in the memo makes the
+    plain entry /B : Integer of the same dictionary be skipped: `<< /A (s) /B (s) >>` is accepted by
+    dict{A : Integer|String, B : Integer}.  Also through a second disjunction: `[(s) (s)]` against
+    [Integer|String, Integer|Bool].  (Hence a fragment with disjunctions needs the privacy condition of `inF2`.) -/
+theorem shared_alternative_leak_witness :
+    let tD : Chk := .dict Attr.dflt (.cons kA .required (.disj Attr.dflt (alts [I, S'])) (.cons kB .required I .nil))
+    let oD : Obj := .dict (.cons kA sS (.cons kB sS .nil))
+    let tH : Chk := .het Attr.dflt (alts [.disj Attr.dflt (alts [I, S']), .disj Attr.dflt (alts [I, B'])])
+    let oH : Obj := .arr (.cons [] sS (.cons [] sS .nil))
+    (checkTypeFuel Fix.tree [] [] 50 oD tD).1 = .accept ∧ gfp [] [] oD tD = false ∧
+    (checkTypeFuel { Fix.tree with trail := true } [] [] 50 oD tD).1 = .reject .typeMismatch ∧
+    (checkTypeFuel Fix.tree [] [] 50 oH tH).1 = .accept ∧ gfp [] [] oH tH = false ∧
+    (checkTypeFuel { Fix.tree with trail := true } [] [] 50 oH tH).1 = .reject .typeMismatch := by decide
+
+/-! ### fragment F2 (disjunctions of private leaf alternatives): stated (`Frag.inF2`), tested by the judge, NOT proved -/
+-- inside F2: an array of (Integer | Real) of size 4 (the shipped "rectangle"), also with an indirect requirement on the disjunction
+example : Frag.inF2 [] (.array Attr.dflt (.disj Attr.dflt (alts [I, .prim Attr.dflt .real])) (some 4)) = true := by decide
+example : Frag.inF2 [] (.array Attr.dflt (.disj ⟨none, .required⟩ (alts [I, S'])) none) = true := by decide
+example : Frag.inF2 [] (.dict Attr.dflt (.cons kA .required (.disj Attr.dflt (alts [I, S'])) (.cons kB .required B' .nil))) = true := by decide
+-- outside F2: the two specifications of `shared_alternative_leak_witness` (an alternative is not private), `memo_leak_witness`
+-- (compound alternatives), and an alternative with an indirect requirement of its own
+example : Frag.inF2 [] (.dict Attr.dflt (.cons kA .required (.disj Attr.dflt (alts [I, S'])) (.cons kB .required I .nil))) = false := by decide
+example : Frag.inF2 [] (.het Attr.dflt (alts [.disj Attr.dflt (alts [I, S']), .disj Attr.dflt (alts [I, B'])])) = false := by decide
+example : Frag.inF2 [] (.disj Attr.dflt (alts [alt1, alt2])) = false := by decide
+example : Frag.inF2 [] (.disj Attr.dflt (alts [I, .prim ⟨none, .required⟩ .real])) = false := by decide
 
 end Parsley.C08
